@@ -11,6 +11,7 @@ import DTML.ExtImpl
 import DTML.Sort
 import DTML.Stats
 import DTML.TreeCodec
+import DTML.TreeState
 open Lean DTML
 
 namespace Driver
@@ -190,6 +191,39 @@ def opB64 (j : Json) : Except String Json := do
       | some l => Json.arr (l.map (fun (n : Nat) => Json.num n)).toArray
       | none => Json.null)]
 
+partial def parseTree (j : Json) : Except String TreeState.T := do
+  let a ← j.getArr?
+  let id ← (a[0]!).getNat?
+  let kids ← (a[1]!).getArr?
+  let ks ← kids.toList.mapM parseTree
+  return .node id ks
+
+def jPath (p : List Nat) : Json := Json.arr (p.map (fun (n : Nat) => Json.num n)).toArray
+
+def treeSnapshot (root : TreeState.T) (st : List TreeState.St) : Json :=
+  let rows := TreeState.render root st
+  Json.mkObj [("rows", Json.arr (rows.map fun r =>
+      Json.arr #[Json.num r.id, Json.bool r.hasLink, Json.bool r.expanded, jPath r.path]).toArray),
+    ("paths", Json.arr ((TreeState.pathsList st []).map jPath).toArray)]
+
+/-- op "tree": run a click history on a tree; snapshot after the start and after every click -/
+def opTree (j : Json) : Except String Json := do
+  let root ← parseTree (← j.getObjVal? "tree")
+  let start ← getStr j "start"
+  let clicksJ ← j.getObjValAs? (Array Json) "clicks"
+  let st0 := if start = "expand_all" then TreeState.expandAllState root else TreeState.initState root
+  let mut st := st0
+  let mut out := #[treeSnapshot root st]
+  for c in clicksJ do
+    let kind ← getStr c "kind"
+    if kind = "expand_all" then st := TreeState.expandAllState root
+    else if kind = "collapse_all" then st := TreeState.initState root
+    else
+      let path ← c.getObjValAs? (Array Nat) "path"
+      st := TreeState.click st path.toList (kind = "e")
+    out := out.push (treeSnapshot root st)
+  return Json.arr out
+
 def handle (j : Json) : Except String Json := do
   let op ← getStr j "op"
   match op with
@@ -202,6 +236,7 @@ def handle (j : Json) : Except String Json := do
   | "sort" => opSort j
   | "stats" => opStats j
   | "b64" => opB64 j
+  | "tree" => opTree j
   | "ping" => return Json.str "pong"
   | _ => throw s!"unknown op {op}"
 
